@@ -172,4 +172,102 @@ def growSk (fails : GEff → Bool) (cropIsNone cwdNotCrop fnIsNone : Bool) (n : 
               else
                 (trace, none)))
 
+def cropIsPrepared (infoExists otherExists : Bool) (infoBs infoNb infoRem : Option Int) (nBatchFiles nResultFiles nOtherFiles : Int) (isResultFile isBatchFile : Int → Bool) (batchsize numBatches remainder : Option Int) (numSown numResults : Int) : Except PyErr Bool := 
+  .ok (infoExists)
+
+def cropCalcProgress (infoExists otherExists : Bool) (infoBs infoNb infoRem : Option Int) (nBatchFiles nResultFiles nOtherFiles : Int) (isResultFile isBatchFile : Int → Bool) (batchsize numBatches remainder : Option Int) (numSown numResults : Int) : Except PyErr (Option Int × Option Int × Option Int × Int × Int) := 
+  if infoExists then
+    let batchsize : Option Int := infoBs
+    let numBatches : Option Int := infoNb
+    let remainder : Option Int := infoRem
+    let numSown : Int := nBatchFiles
+    let numResults : Int := nResultFiles
+    .ok (batchsize, numBatches, remainder, numSown, numResults)
+  else
+    let numSown : Int := (-(1 : Int))
+    let numResults : Int := (-(1 : Int))
+    .ok (batchsize, numBatches, remainder, numSown, numResults)
+
+def cropIsReadyToReap (infoExists otherExists : Bool) (infoBs infoNb infoRem : Option Int) (nBatchFiles nResultFiles nOtherFiles : Int) (isResultFile isBatchFile : Int → Bool) (batchsize numBatches remainder : Option Int) (numSown numResults : Int) : Except PyErr (Bool × Option Int × Option Int × Option Int × Int × Int) := 
+  if infoExists then
+    let batchsize : Option Int := infoBs
+    let numBatches : Option Int := infoNb
+    let remainder : Option Int := infoRem
+    let numSown : Int := nBatchFiles
+    let numResults : Int := nResultFiles
+    if infoExists then
+      let batchsize : Option Int := infoBs
+      let numBatches : Option Int := infoNb
+      let remainder : Option Int := infoRem
+      let numSown : Int := nBatchFiles
+      let numResults : Int := nResultFiles
+      .ok (((decide (numResults > (0 : Int))) && (decide (numResults = numSown))), batchsize, numBatches, remainder, numSown, numResults)
+    else
+      let numSown : Int := (-(1 : Int))
+      let numResults : Int := (-(1 : Int))
+      .ok (((decide (numResults > (0 : Int))) && (decide (numResults = numSown))), batchsize, numBatches, remainder, numSown, numResults)
+  else
+    let numSown : Int := (-(1 : Int))
+    let numResults : Int := (-(1 : Int))
+    if infoExists then
+      let batchsize : Option Int := infoBs
+      let numBatches : Option Int := infoNb
+      let remainder : Option Int := infoRem
+      let numSown : Int := nBatchFiles
+      let numResults : Int := nResultFiles
+      .ok (((decide (numResults > (0 : Int))) && (decide (numResults = numSown))), batchsize, numBatches, remainder, numSown, numResults)
+    else
+      let numSown : Int := (-(1 : Int))
+      let numResults : Int := (-(1 : Int))
+      .ok (((decide (numResults > (0 : Int))) && (decide (numResults = numSown))), batchsize, numBatches, remainder, numSown, numResults)
+
+def cropMissingResults (infoExists otherExists : Bool) (infoBs infoNb infoRem : Option Int) (nBatchFiles nResultFiles nOtherFiles : Int) (isResultFile isBatchFile : Int → Bool) (batchsize numBatches remainder : Option Int) (numSown numResults : Int) : Except PyErr (List Int × Option Int × Option Int × Option Int × Int × Int) := 
+  if infoExists then
+    let batchsize : Option Int := infoBs
+    let numBatches : Option Int := infoNb
+    let remainder : Option Int := infoRem
+    let numSown : Int := nBatchFiles
+    let numResults : Int := nResultFiles
+    (match numBatches with
+    | none => .error .typeError
+    | some numBatches_v1 =>
+      .ok (((rangeInt (1 : Int) (numBatches_v1 + (1 : Int))).filter (fun x => (!(isResultFile x)))), batchsize, (some numBatches_v1 : Option Int), remainder, numSown, numResults))
+  else
+    let numSown : Int := (-(1 : Int))
+    let numResults : Int := (-(1 : Int))
+    (match numBatches with
+    | none => .error .typeError
+    | some numBatches_v2 =>
+      .ok (((rangeInt (1 : Int) (numBatches_v2 + (1 : Int))).filter (fun x => (!(isResultFile x)))), batchsize, (some numBatches_v2 : Option Int), remainder, numSown, numResults))
+
+def cropNumSownBatches (infoExists otherExists : Bool) (infoBs infoNb infoRem : Option Int) (nBatchFiles nResultFiles nOtherFiles : Int) (isResultFile isBatchFile : Int → Bool) (batchsize numBatches remainder : Option Int) (numSown numResults : Int) : Except PyErr (Int × Option Int × Option Int × Option Int × Int × Int) := 
+  if infoExists then
+    let batchsize : Option Int := infoBs
+    let numBatches : Option Int := infoNb
+    let remainder : Option Int := infoRem
+    let numSown : Int := nBatchFiles
+    let numResults : Int := nResultFiles
+    .ok (numSown, batchsize, numBatches, remainder, numSown, numResults)
+  else
+    let numSown : Int := (-(1 : Int))
+    let numResults : Int := (-(1 : Int))
+    .ok (numSown, batchsize, numBatches, remainder, numSown, numResults)
+
+def cropNumResults (infoExists otherExists : Bool) (infoBs infoNb infoRem : Option Int) (nBatchFiles nResultFiles nOtherFiles : Int) (isResultFile isBatchFile : Int → Bool) (batchsize numBatches remainder : Option Int) (numSown numResults : Int) : Except PyErr (Int × Option Int × Option Int × Option Int × Int × Int) := 
+  if infoExists then
+    let batchsize : Option Int := infoBs
+    let numBatches : Option Int := infoNb
+    let remainder : Option Int := infoRem
+    let numSown : Int := nBatchFiles
+    let numResults : Int := nResultFiles
+    .ok (numResults, batchsize, numBatches, remainder, numSown, numResults)
+  else
+    let numSown : Int := (-(1 : Int))
+    let numResults : Int := (-(1 : Int))
+    .ok (numResults, batchsize, numBatches, remainder, numSown, numResults)
+
+def cropGrowIds (idsIsInt : Bool) (single : Int) (many : List Int) : List Int := (if idsIsInt then [single] else many)
+
+def growMissingIds (missing : List Int) : List Int := missing
+
 end Gen.Default
